@@ -193,6 +193,76 @@ def check_trial(prog: Program, sc, rec) -> list[dict]:
     return out
 
 
+_ATOMS_WRITES = {"positions": "positions", "set_positions": "positions", "set_cell": "cell", "cell": "cell", "set_array": "per-atom array", "set_momenta": "momenta",
+                 "set_velocities": "momenta", "set_constraint": "constraints", "constraints": "constraints", "set_masses": "masses", "set_tags": "tags"}
+
+
+def _snapshot_freshness(prog: Program, L: Ledger) -> None:
+    """U6: what a rejected trial writes back must be the state *before that trial*.  The abstract heap starts each scenario
+    with snapshots equal to the live state; that is true of a run only if every snapshot slot the context's revert_state
+    chain writes back into the atoms is re-taken from the live atoms when a run starts (the driver's validate_simulation
+    chain, called by irun) — otherwise whatever the user changed between construction / the last accepted trial and this run
+    is silently undone by the first rejected trial."""
+    import ast as _ast
+
+    from ..loader import norm as _norm, walk_no_nested as _walk
+
+    L.rule("U6", "every snapshot slot that a context's revert_state chain writes back into the atoms is re-taken from the live atoms on the run-start path of every driver using that context")
+    drv = prog.cls("Driver")
+    irun = prog.lookup_method(drv, "irun")
+    if irun is None or not any(isinstance(c, _ast.Call) and _norm(c.func) == "self.validate_simulation" for c in _ast.walk(irun.node)):
+        raise AnalysisError("Driver.irun no longer calls self.validate_simulation(): the run-start path of rule U6 is not recognised")
+    n = 0
+    for d in prog.subclasses(drv, strict=True):
+        k = prog.classvar_class(d, "default_context")
+        if k is None:
+            continue
+        restored: dict[str, tuple[str, str, int]] = {}
+        for f in prog.super_chain(k, "revert_state"):
+            for st in _walk(f.node):
+                comp = None
+                vals = []
+                if isinstance(st, _ast.Assign):
+                    for t in st.targets:
+                        b = t
+                        while isinstance(b, _ast.Subscript):
+                            b = b.value
+                        if isinstance(b, _ast.Attribute) and _norm(b.value) == "self.atoms" and b.attr in _ATOMS_WRITES:
+                            comp = _ATOMS_WRITES[b.attr]
+                            vals = [st.value]
+                elif isinstance(st, _ast.Expr) and isinstance(st.value, _ast.Call) and isinstance(st.value.func, _ast.Attribute) and _norm(st.value.func.value) == "self.atoms" \
+                        and st.value.func.attr in _ATOMS_WRITES:
+                    comp = _ATOMS_WRITES[st.value.func.attr]
+                    vals = list(st.value.args) + [kw.value for kw in st.value.keywords]
+                    if st.value.func.attr == "set_array" and vals and isinstance(vals[0], _ast.Constant):
+                        comp = str(vals[0].value)
+                if comp is None:
+                    continue
+                for v in vals:
+                    for a in _ast.walk(v):
+                        if isinstance(a, _ast.Attribute) and isinstance(a.value, _ast.Name) and a.value.id == "self" and a.attr.startswith("last_"):
+                            restored.setdefault(a.attr, (comp, f.qualname, st.lineno))
+        refreshed = set()
+        for f in prog.super_chain(d, "validate_simulation"):
+            for st in _walk(f.node):
+                if isinstance(st, (_ast.Assign, _ast.AnnAssign)):
+                    for t in (st.targets if isinstance(st, _ast.Assign) else [st.target]):
+                        if isinstance(t, _ast.Attribute) and _norm(t.value) == "self.context":
+                            refreshed.add(t.attr)
+                if isinstance(st, _ast.Expr) and isinstance(st.value, _ast.Call) and _norm(st.value.func) == "self.context.save_state":
+                    refreshed |= set(restored)
+        for slot, (comp, fq, line) in sorted(restored.items()):
+            n += 1
+            cons = f"{d.name}/{k.name}.{slot}"
+            if slot in refreshed:
+                L.ok("U6", cons, f"{k.module.relpath}:{line}")
+            else:
+                L.violation("U6", f"{cons}:stale-snapshot", f"{k.module.relpath}:{line}",
+                            f"{fq} writes `{slot}` back into the atoms' {comp}, but no validate_simulation of {d.name} re-takes it when a run starts: the snapshot is as old as the construction or the last accepted trial",
+                            f"build {d.name}, change the atoms' {comp} (or run, then change them), run again: the first rejected trial puts the old {comp} back instead of the pre-trial ones", slot)
+    L.floor("restored snapshot slots × drivers (rule U6)", n, 6)
+
+
 def run(prog: Program, L: Ledger) -> None:
     L.explanation = (
         "C03 decided by a path-sensitive effect/typestate analysis: the simulation state is abstracted to components "
@@ -221,6 +291,7 @@ def run(prog: Program, L: Ledger) -> None:
 
     L.rule("UL", "lemma used by U1: reinsert_atoms(atoms, removed, indices) inverts `del atoms[indices]` (scatter/gather shape rules of C19/R1)")
     c19.check_reinsert(prog, L, "UL")
+    _snapshot_freshness(prog, L)
     scs = scenarios(prog, with_composites=True, iterations=1)
     if L.tier == "thorough":
         scs += [s for s in scenarios(prog, with_composites=False, iterations=2)]
